@@ -294,7 +294,7 @@ theorem gapOf_full (o : ROpts) (d : Rat) (a b : RSeg) (h : FullGapR o a b) : gap
   · rename_i h3
     exfalso; apply hce
     simp only [Bool.and_eq_true, Bool.not_eq_true'] at h3
-    exact h3
+    exact ⟨h3.1.1, h3.2⟩
   · rfl
 
 theorem gapOf_values (o : ROpts) (d : Rat) (a b : RSeg) : (gapOf o d a b).1 = 0 ∨ (gapOf o d a b).1 = d := by
